@@ -9,6 +9,16 @@ import (
 	"golang.org/x/tools/go/ssa"
 )
 
+// freshSliceResult: a slice returned by a library call: nil, or backed by an array allocated by the call.
+func (p *Proof) freshSliceResult(st *State, t types.Type, name string) SliceV {
+	s := freshValue(t, name).(SliceV)
+	old := st.HeapTop
+	st.HeapTop = p.bumpHeapTop(st.HeapTop, "heaptop")
+	p.assume(True(), p.typeInv(st, t, s))
+	p.assume(True(), Or(Eq(s.Ref, BVInt(0, 64)), BVUge(s.Ref, old)))
+	return s
+}
+
 func ghostInc(g *Term) *Term {
 	if g.Sort == SInt {
 		return IntAdd(g, IntConst(big1))
@@ -158,14 +168,12 @@ func init() {
 	for _, k := range []string{"os.WriteFile", "os.Remove", "os.Rename"} {
 		libEffTable[k] = func(e *effects) { e.ghost["fsops"] = true }
 	}
-	reg("os.ReadFile", "may fail with any error; on success returns fresh bytes of any length and content", func(fr *Frame, in ssa.Instruction, st *State, args []Value, rt types.Type) Value {
+	reg("os.ReadFile", "may fail with any error; on success returns fresh bytes of any content and any length below 4 GiB (scoping)", func(fr *Frame, in ssa.Instruction, st *State, args []Value, rt types.Type) Value {
 		p := fr.p
 		tt := rt.(*types.Tuple)
-		s := freshValue(tt.At(0).Type(), "readfile").(SliceV)
-		p.assume(True(), p.typeInv(st, tt.At(0).Type(), s))
-		p.assume(True(), BVUge(s.Ref, st.HeapTop))
-		st.HeapTop = p.bumpHeapTop(st.HeapTop, "heaptop")
-		p.assume(True(), Or(Eq(s.Ref, BVInt(0, 64)), BVUlt(s.Ref, st.HeapTop)))
+		s := p.freshSliceResult(st, tt.At(0).Type(), "readfile")
+		// scoping assumption: files handled by this library are smaller than 4 GiB
+		p.assume(True(), BVSlt(s.Len, BVConst(new(bigInt).Lsh(big1, 32), 64)))
 		return TupleV{s, freshErr(p, "readfile.err")}
 	})
 	libEffTable["os.ReadFile"] = func(e *effects) { e.alloc = true }
@@ -173,9 +181,9 @@ func init() {
 		return freshStr(fr.p, st, "getenv")
 	})
 	libEffTable["os.Getenv"] = noEffect
-	reg("os.Getpagesize", "returns a positive power of two not above 64 KiB... assumed >= 4096 and <= 65536", func(fr *Frame, in ssa.Instruction, st *State, args []Value, rt types.Type) Value {
+	reg("os.Getpagesize", "returns 4096, 8192, 16384 or 65536", func(fr *Frame, in ssa.Instruction, st *State, args []Value, rt types.Type) Value {
 		r := B.Fresh("pagesize", SBV(64))
-		fr.p.assume(True(), And(BVSle(BVInt(4096, 64), r), BVSle(r, BVInt(65536, 64))))
+		fr.p.assume(True(), Or(Eq(r, BVInt(4096, 64)), Eq(r, BVInt(8192, 64)), Eq(r, BVInt(16384, 64)), Eq(r, BVInt(65536, 64))))
 		return Scalar{r}
 	})
 	libEffTable["os.Getpagesize"] = noEffect
@@ -209,12 +217,9 @@ func init() {
 	reg("syscall.Mmap", "may fail; on success returns a fresh byte slice of exactly the requested length", func(fr *Frame, in ssa.Instruction, st *State, args []Value, rt types.Type) Value {
 		p := fr.p
 		tt := rt.(*types.Tuple)
-		s := freshValue(tt.At(0).Type(), "mmap").(SliceV)
+		s := p.freshSliceResult(st, tt.At(0).Type(), "mmap")
 		e := freshErr(p, "mmap.err")
-		p.assume(True(), p.typeInv(st, tt.At(0).Type(), s))
-		p.assume(True(), Implies(Eq(e.Ref, BVInt(0, 64)), And(Eq(s.Len, sTerm(args[2])), Neq(s.Ref, BVInt(0, 64)), BVUge(s.Ref, st.HeapTop))))
-		st.HeapTop = p.bumpHeapTop(st.HeapTop, "heaptop")
-		p.assume(True(), BVUlt(s.Ref, st.HeapTop))
+		p.assume(True(), Implies(Eq(e.Ref, BVInt(0, 64)), And(Eq(s.Len, sTerm(args[2])), Neq(s.Ref, BVInt(0, 64)))))
 		return TupleV{s, e}
 	})
 	libEffTable["syscall.Mmap"] = func(e *effects) { e.alloc = true }
